@@ -1,6 +1,7 @@
 import TabulaModel.Lemmas.PdfState
 import TabulaModel.Lemmas.PdfTok
 import TabulaModel.Lemmas.PdfReal
+import TabulaModel.Lemmas.PdfDepth
 namespace Tabula.Pdf
 open Tabula.A1 (atoi dec)
 
@@ -342,62 +343,83 @@ theorem kvs_head (kvs : List SObj) (hv : ValidKVs kvs) (T : Str)
 
 /-! ### the parser, one step at a time -/
 
-theorem po_kw (f : Nat) (s : PState) (v : Str) (h : s.cur = some (.keyword v)) :
-    parseObject (f + 1) s =
+theorem po_kw (f d : Nat) (s : PState) (v : Str) (h : s.cur = some (.keyword v)) :
+    parseObject (f + 1) d s =
       (if v = kwNull then .ok (.null, s.next)
        else if v = kwTrue then .ok (.bool true, s.next)
        else if v = kwFalse then .ok (.bool false, s.next)
        else .error .err) := by
   rw [parseObject]; simp only [h]
 
-theorem po_int (f : Nat) (s : PState) (v : Str) (h : s.cur = some (.integer v)) :
-    parseObject (f + 1) s = parseNumber s v := by
+theorem po_int (f d : Nat) (s : PState) (v : Str) (h : s.cur = some (.integer v)) :
+    parseObject (f + 1) d s = parseNumber s v := by
   rw [parseObject]; simp only [h]
 
-theorem po_real (f : Nat) (s : PState) (v : Str) (o : Obj) (h : s.cur = some (.real v))
+theorem po_real (f d : Nat) (s : PState) (v : Str) (o : Obj) (h : s.cur = some (.real v))
     (hp : parseReal v = some o) :
-    parseObject (f + 1) s = .ok (o, s.next) := by
+    parseObject (f + 1) d s = .ok (o, s.next) := by
   rw [parseObject]; simp only [h, hp]
 
-theorem po_str (f : Nat) (s : PState) (v : Str) (h : s.cur = some (.str v)) :
-    parseObject (f + 1) s = .ok (.str v, s.next) := by
+theorem po_str (f d : Nat) (s : PState) (v : Str) (h : s.cur = some (.str v)) :
+    parseObject (f + 1) d s = .ok (.str v, s.next) := by
   rw [parseObject]; simp only [h]
 
-theorem po_hex (f : Nat) (s : PState) (v : Str) (h : s.cur = some (.hexstr v)) :
-    parseObject (f + 1) s = .ok (.str (hexPairs v), s.next) := by
+theorem po_hex (f d : Nat) (s : PState) (v : Str) (h : s.cur = some (.hexstr v)) :
+    parseObject (f + 1) d s = .ok (.str (hexPairs v), s.next) := by
   rw [parseObject]; simp only [h]
 
-theorem po_name (f : Nat) (s : PState) (v : Str) (h : s.cur = some (.name v)) :
-    parseObject (f + 1) s = .ok (.name v, s.next) := by
+theorem po_name (f d : Nat) (s : PState) (v : Str) (h : s.cur = some (.name v)) :
+    parseObject (f + 1) d s = .ok (.name v, s.next) := by
   rw [parseObject]; simp only [h]
 
-theorem po_arr (f : Nat) (s : PState) (h : s.cur = some .arrStart) :
-    parseObject (f + 1) s = parseArray f s.next [] := by
-  rw [parseObject]; simp only [h]
+theorem po_arr (f d : Nat) (s : PState) (h : s.cur = some .arrStart) (hd : d < maxNestingDepth) :
+    parseObject (f + 1) d s = parseArray f (d + 1) s.next [] := by
+  rw [parseObject]; simp only [h, Nat.not_le.2 hd, if_false]
 
-theorem po_dict (f : Nat) (s : PState) (h : s.cur = some .dictStart) :
-    parseObject (f + 1) s = parseDict f s.next [] := by
-  rw [parseObject]; simp only [h]
+theorem po_arr_deep (f d : Nat) (s : PState) (h : s.cur = some .arrStart) (hd : maxNestingDepth ≤ d) :
+    parseObject (f + 1) d s = .error .err := by
+  rw [parseObject]; simp only [h, hd, if_true]
 
-theorem pa_end (f : Nat) (s : PState) (acc : List Obj) (h : s.cur = some .arrEnd) :
-    parseArray (f + 1) s acc = .ok (.arr acc, s.next) := by
+theorem po_dict (f d : Nat) (s : PState) (h : s.cur = some .dictStart) (hd : d < maxNestingDepth) :
+    parseObject (f + 1) d s = parseDict f (d + 1) s.next [] := by
+  rw [parseObject]; simp only [h, Nat.not_le.2 hd, if_false]
+
+theorem po_dict_deep (f d : Nat) (s : PState) (h : s.cur = some .dictStart) (hd : maxNestingDepth ≤ d) :
+    parseObject (f + 1) d s = .error .err := by
+  rw [parseObject]; simp only [h, hd, if_true]
+
+theorem pa_end (f d : Nat) (s : PState) (acc : List Obj) (h : s.cur = some .arrEnd) :
+    parseArray (f + 1) d s acc = .ok (.arr acc, s.next) := by
   rw [parseArray]; simp only [h]
 
-theorem pa_item (f : Nat) (s : PState) (acc : List Obj) (t : Token) (o : Obj) (s' : PState)
-    (h : s.cur = some t) (h1 : t ≠ .arrEnd) (h2 : t ≠ .eof) (hp : parseObject f s = .ok (o, s')) :
-    parseArray (f + 1) s acc = parseArray f s' (acc ++ [o]) := by
+theorem pa_item (f d : Nat) (s : PState) (acc : List Obj) (t : Token) (o : Obj) (s' : PState)
+    (h : s.cur = some t) (h1 : t ≠ .arrEnd) (h2 : t ≠ .eof) (hp : parseObject f d s = .ok (o, s')) :
+    parseArray (f + 1) d s acc = parseArray f d s' (acc ++ [o]) := by
   cases t <;> first
     | exact absurd rfl h1
     | exact absurd rfl h2
     | (rw [parseArray]; simp only [h, hp])
 
-theorem pd_end (f : Nat) (s : PState) (acc : List (Str × Obj)) (h : s.cur = some .dictEnd) :
-    parseDict (f + 1) s acc = .ok (.dict acc, s.next) := by
+theorem pa_item_err (f d : Nat) (s : PState) (acc : List Obj) (t : Token) (e : PErr)
+    (h : s.cur = some t) (h1 : t ≠ .arrEnd) (h2 : t ≠ .eof) (hp : parseObject f d s = .error e) :
+    parseArray (f + 1) d s acc = .error .err := by
+  cases t <;> first
+    | exact absurd rfl h1
+    | exact absurd rfl h2
+    | (rw [parseArray]; simp only [h, hp])
+
+theorem pd_end (f d : Nat) (s : PState) (acc : List (Str × Obj)) (h : s.cur = some .dictEnd) :
+    parseDict (f + 1) d s acc = .ok (.dict acc, s.next) := by
   rw [parseDict]; simp only [h]
 
-theorem pd_item (f : Nat) (s : PState) (acc : List (Str × Obj)) (k : Str) (o : Obj) (s' : PState)
-    (h : s.cur = some (.name k)) (hp : parseObject f s.next = .ok (o, s')) :
-    parseDict (f + 1) s acc = parseDict f s' (dictSet acc k o) := by
+theorem pd_item (f d : Nat) (s : PState) (acc : List (Str × Obj)) (k : Str) (o : Obj) (s' : PState)
+    (h : s.cur = some (.name k)) (hp : parseObject f d s.next = .ok (o, s')) :
+    parseDict (f + 1) d s acc = parseDict f d s' (dictSet acc k o) := by
+  rw [parseDict]; simp only [h, hp]
+
+theorem pd_item_err (f d : Nat) (s : PState) (acc : List (Str × Obj)) (k : Str) (e : PErr)
+    (h : s.cur = some (.name k)) (hp : parseObject f d s.next = .error e) :
+    parseDict (f + 1) d s acc = .error .err := by
   rw [parseDict]; simp only [h, hp]
 
 /-- an integer not followed by `integer R` -/
@@ -438,10 +460,10 @@ theorem dictSet_fresh (acc : List (Str × Obj)) (k : Str) (v : Obj) (h : k ∉ a
 /-! ### D. the main induction -/
 
 mutual
-theorem obj_rt (so : SObj) (need : Bool) (rest : Str) (f : Nat)
-    (hv : so.Valid need) (hf : so.size ≤ f)
+theorem obj_rt (so : SObj) (need : Bool) (rest : Str) (f d : Nat)
+    (hv : so.Valid need) (hf : so.size ≤ f) (hd : d + so.depth ≤ maxNestingDepth)
     (hterm : so.endsRegular = true → Terminated rest) (hnra : NoRefAhead rest) :
-    parseObject f (stateAt (so.render ++ rest)) = .ok (so.value, stateAt rest) := by
+    parseObject f d (stateAt (so.render ++ rest)) = .ok (so.value, stateAt rest) := by
   obtain ⟨f, rfl⟩ : ∃ f', f = f' + 1 := by
     cases f with
     | zero => cases so <;> simp [SObj.size] at hf
@@ -451,57 +473,60 @@ theorem obj_rt (so : SObj) (need : Bool) (rest : Str) (f : Nat)
     simp only [SObj.Valid] at hv
     simp only [SObj.render, List.append_assoc, SObj.value]
     have hs := starts_kw pre kwNull rest hv.1 (Or.inl rfl) (hterm rfl)
-    rw [po_kw f _ _ hs.cur, hs.next, if_pos rfl]
+    rw [po_kw f d _ _ hs.cur, hs.next, if_pos rfl]
   | .bool pre b =>
     simp only [SObj.Valid] at hv
     simp only [SObj.render, List.append_assoc, SObj.value]
     cases b with
     | true =>
       have hs := starts_kw pre kwTrue rest hv.1 (Or.inr (Or.inl rfl)) (hterm rfl)
-      rw [if_pos rfl, po_kw f _ _ hs.cur, hs.next, if_neg (by decide), if_pos rfl]
+      rw [if_pos rfl, po_kw f d _ _ hs.cur, hs.next, if_neg (by decide), if_pos rfl]
     | false =>
       have hs := starts_kw pre kwFalse rest hv.1 (Or.inr (Or.inr rfl)) (hterm rfl)
-      rw [if_neg (by decide), po_kw f _ _ hs.cur, hs.next, if_neg (by decide), if_neg (by decide), if_pos rfl]
+      rw [if_neg (by decide), po_kw f d _ _ hs.cur, hs.next, if_neg (by decide), if_neg (by decide), if_pos rfl]
   | .int pre plus z i =>
     simp only [SObj.Valid] at hv
     simp only [SObj.render, List.append_assoc, SObj.value]
     have hs := starts_int pre plus z i rest hv.1 (hterm rfl)
-    rw [po_int f _ _ hs.cur]
+    rw [po_int f d _ _ hs.cur]
     exact pn_int _ _ i rest (atoi_printInt plus z i hv.2.2.1 hv.2.2.2) hs.next hs.peek hnra
   | .real pre r =>
     simp only [SObj.Valid] at hv
     simp only [SObj.render, List.append_assoc, SObj.value]
     have hs := starts_real pre r rest hv.1 hv.2.2 (hterm rfl)
-    rw [po_real f _ _ _ hs.cur (parseReal_render r hv.2.2), hs.next]
+    rw [po_real f d _ _ _ hs.cur (parseReal_render r hv.2.2), hs.next]
   | .lit pre ps =>
     simp only [SObj.Valid] at hv
     simp only [SObj.render, List.append_assoc, SObj.value]
     have hs := starts_lit pre ps rest hv.1 hv.2
-    rw [po_str f _ _ hs.cur, hs.next]
+    rw [po_str f d _ _ hs.cur, hs.next]
   | .hex pre ps last w =>
     simp only [SObj.Valid] at hv
     simp only [SObj.render, List.append_assoc, SObj.value]
     obtain ⟨ds, hs, hd⟩ := starts_hex pre ps last w rest hv.1 hv.2.1 hv.2.2.1 hv.2.2.2
-    rw [po_hex f _ _ hs.cur, hs.next, hd]
+    rw [po_hex f d _ _ hs.cur, hs.next, hd]
   | .name pre ps =>
     simp only [SObj.Valid] at hv
     simp only [SObj.render, List.append_assoc, List.cons_append, SObj.value]
     have hs := starts_name pre ps rest hv.1 hv.2 (hterm rfl)
-    rw [po_name f _ _ hs.cur, hs.next]
+    rw [po_name f d _ _ hs.cur, hs.next]
   | .arr pre items close =>
     simp only [SObj.Valid] at hv
     simp only [SObj.size] at hf
+    simp only [SObj.depth] at hd
     simp only [SObj.render, List.append_assoc, List.cons_append, SObj.value, List.nil_append]
     have hs := starts_arrStart pre (renderList items ++ (renderSep close ++ 93 :: rest)) hv.1
-    rw [po_arr f _ hs.cur, hs.next, arr_rt items false close rest f [] hv.2.2 hv.2.1 (by omega)]
+    rw [po_arr f d _ hs.cur (by omega), hs.next,
+      arr_rt items false close rest f (d + 1) [] hv.2.2 hv.2.1 (by omega) (by omega)]
     rfl
   | .dict pre kvs close =>
     simp only [SObj.Valid] at hv
     simp only [SObj.size] at hf
+    simp only [SObj.depth] at hd
     simp only [SObj.render, List.append_assoc, List.cons_append, SObj.value, List.nil_append]
     have hs := starts_dictStart pre (renderList kvs ++ (renderSep close ++ 62 :: 62 :: rest)) hv.1
-    rw [po_dict f _ hs.cur, hs.next,
-      dict_rt kvs close rest f [] hv.2.2.1 hv.2.1 hv.2.2.2 (by simp) (by omega)]
+    rw [po_dict f d _ hs.cur (by omega), hs.next,
+      dict_rt kvs close rest f (d + 1) [] hv.2.2.1 hv.2.1 hv.2.2.2 (by simp) (by omega) (by omega)]
     rfl
   | .ref pre n g s1 s2 =>
     simp only [SObj.Valid] at hv
@@ -513,23 +538,25 @@ theorem obj_rt (so : SObj) (need : Bool) (rest : Str) (f : Nat)
     have h3 := starts_R s2 rest hs2 (hterm rfl)
     have h2 := starts_dec s1 g _ hs1 hT2
     have h1 := starts_dec pre n _ hp hT1
-    rw [po_int f _ _ h1.cur,
+    rw [po_int f d _ _ h1.cur,
       pn_ref _ _ (dec g) n g (Tabula.A1.atoi_dec n hn) (by rw [h1.peek, h2.cur]) (Tabula.A1.atoi_dec g hg)
         (by rw [h1.next, h2.peek, h3.cur]),
       h1.next, h2.next, h3.next]
-theorem arr_rt (items : List SObj) (need : Bool) (close : Sep) (rest : Str) (f : Nat) (acc : List Obj)
-    (hv : ValidList need items) (hc : SepOk close) (hf : sizeList items + 1 ≤ f) :
-    parseArray f (stateAt (renderList items ++ (renderSep close ++ 93 :: rest))) acc =
+theorem arr_rt (items : List SObj) (need : Bool) (close : Sep) (rest : Str) (f d : Nat) (acc : List Obj)
+    (hv : ValidList need items) (hc : SepOk close) (hf : sizeList items + 1 ≤ f)
+    (hd : d + sdepthList items ≤ maxNestingDepth) :
+    parseArray f d (stateAt (renderList items ++ (renderSep close ++ 93 :: rest))) acc =
       .ok (.arr (acc ++ valueList items), stateAt rest) := by
   obtain ⟨f, rfl⟩ : ∃ f', f = f' + 1 := ⟨f - 1, by omega⟩
   have hE := starts_arrEnd close rest hc
   match items with
   | [] =>
     simp only [renderList, List.nil_append, valueList, List.append_nil]
-    rw [pa_end f _ acc hE.cur, hE.next]
+    rw [pa_end f d _ acc hE.cur, hE.next]
   | x :: xs =>
     simp only [ValidList] at hv
     simp only [sizeList] at hf
+    simp only [sdepthList] at hd
     simp only [renderList, List.append_assoc, valueList]
     have hT : Terminated (renderSep close ++ 93 :: rest) := term_sep close hc _ (term_cons 93 _ (by decide))
     have hT1 : FirstNotR (renderSep close ++ 93 :: rest) := firstNotR_of_starts hE (by simp)
@@ -541,27 +568,28 @@ theorem arr_rt (items : List SObj) (need : Bool) (close : Sep) (rest : Str) (f :
       rw [he] at hv2
       exact term_list xs hv2 _ hT
     obtain ⟨t, r, hs, ht, _⟩ := obj_first x need hv.1 _ hterm
-    have hx := obj_rt x need _ f hv.1 (by omega) hterm (noRefAhead_list xs _ hv.2 _ hT hT1 hT2)
-    rw [pa_item f _ acc t _ _ hs.cur ht.2.1 ht.2.2.2 hx,
-      arr_rt xs x.endsRegular close rest f (acc ++ [x.value]) hv.2 hc (by omega)]
+    have hx := obj_rt x need _ f d hv.1 (by omega) (by omega) hterm (noRefAhead_list xs _ hv.2 _ hT hT1 hT2)
+    rw [pa_item f d _ acc t _ _ hs.cur ht.2.1 ht.2.2.2 hx,
+      arr_rt xs x.endsRegular close rest f d (acc ++ [x.value]) hv.2 hc (by omega) (by omega)]
     simp
-theorem dict_rt (kvs : List SObj) (close : Sep) (rest : Str) (f : Nat) (acc : List (Str × Obj))
+theorem dict_rt (kvs : List SObj) (close : Sep) (rest : Str) (f d : Nat) (acc : List (Str × Obj))
     (hv : ValidKVs kvs) (hc : SepOk close)
     (hnd : (keysOf kvs).Nodup) (hfr : ∀ k ∈ keysOf kvs, k ∉ acc.map Prod.fst)
-    (hf : sizeList kvs + 1 ≤ f) :
-    parseDict f (stateAt (renderList kvs ++ (renderSep close ++ 62 :: 62 :: rest))) acc =
+    (hf : sizeList kvs + 1 ≤ f) (hd : d + sdepthList kvs ≤ maxNestingDepth) :
+    parseDict f d (stateAt (renderList kvs ++ (renderSep close ++ 62 :: 62 :: rest))) acc =
       .ok (.dict (acc ++ valueKVs kvs), stateAt rest) := by
   obtain ⟨f, rfl⟩ : ∃ f', f = f' + 1 := ⟨f - 1, by omega⟩
   have hE := starts_dictEnd close rest hc
   match kvs with
   | [] =>
     simp only [renderList, List.nil_append, valueKVs, List.append_nil]
-    rw [pd_end f _ acc hE.cur, hE.next]
+    rw [pd_end f d _ acc hE.cur, hE.next]
   | [_] => simp [ValidKVs] at hv
   | k :: v :: kvs' =>
     simp only [ValidKVs] at hv
     obtain ⟨hkn, hkv, hvv, hv'⟩ := hv
     simp only [sizeList] at hf
+    simp only [sdepthList] at hd
     simp only [keysOf, List.nodup_cons] at hnd
     match k, hkn, hkv with
     | .name pre ps, _, hkv =>
@@ -577,15 +605,133 @@ theorem dict_rt (kvs : List SObj) (close : Sep) (rest : Str) (f : Nat) (acc : Li
       have hY : Terminated (v.render ++ (renderList kvs' ++ (renderSep close ++ 62 :: 62 :: rest))) :=
         term_obj v true hvv _ (Or.inl rfl)
       have hs := starts_name pre ps _ hkv.1 hkv.2 hY
-      have hx := obj_rt v true _ f hvv (by omega) (fun _ => hA) hC
+      have hx := obj_rt v true _ f d hvv (by omega) (by omega) (fun _ => hA) hC
       rw [← hs.next] at hx
-      rw [pd_item f _ acc _ _ _ hs.cur hx, dictSet_fresh acc _ _ hfr.1,
-        dict_rt kvs' close rest f _ hv' hc hnd.2 ?_ (by omega)]
+      rw [pd_item f d _ acc _ _ _ hs.cur hx, dictSet_fresh acc _ _ hfr.1,
+        dict_rt kvs' close rest f d _ hv' hc hnd.2 ?_ (by omega) (by omega)]
       · simp
       · intro k' hk'
         simp only [List.map_append, List.map_cons, List.map_nil, List.mem_append, List.mem_singleton, not_or]
         refine ⟨hfr.2 k' hk', ?_⟩
         intro e; subst e; exact hnd.1 hk'
+end
+
+/-! ### D'. beyond the nesting limit: the first container that would be number
+`maxNestingDepth + 1` fails, and the failure is handed up through every open container -/
+
+mutual
+theorem obj_deep (so : SObj) (need : Bool) (rest : Str) (f d : Nat)
+    (hv : so.Valid need) (hf : so.size ≤ f) (hd : d ≤ maxNestingDepth)
+    (hdeep : maxNestingDepth < d + so.depth) :
+    parseObject f d (stateAt (so.render ++ rest)) = .error .err := by
+  obtain ⟨f, rfl⟩ : ∃ f', f = f' + 1 := by
+    cases f with
+    | zero => cases so <;> simp [SObj.size] at hf
+    | succ f' => exact ⟨f', rfl⟩
+  match so with
+  | .null _ => simp only [SObj.depth] at hdeep; omega
+  | .bool _ _ => simp only [SObj.depth] at hdeep; omega
+  | .int _ _ _ _ => simp only [SObj.depth] at hdeep; omega
+  | .real _ _ => simp only [SObj.depth] at hdeep; omega
+  | .lit _ _ => simp only [SObj.depth] at hdeep; omega
+  | .hex _ _ _ _ => simp only [SObj.depth] at hdeep; omega
+  | .name _ _ => simp only [SObj.depth] at hdeep; omega
+  | .ref _ _ _ _ _ => simp only [SObj.depth] at hdeep; omega
+  | .arr pre items close =>
+    simp only [SObj.Valid] at hv
+    simp only [SObj.size] at hf
+    simp only [SObj.depth] at hdeep
+    simp only [SObj.render, List.append_assoc, List.cons_append, List.nil_append]
+    have hs := starts_arrStart pre (renderList items ++ (renderSep close ++ 93 :: rest)) hv.1
+    by_cases hlim : maxNestingDepth ≤ d
+    · exact po_arr_deep f d _ hs.cur hlim
+    · rw [po_arr f d _ hs.cur (by omega), hs.next]
+      exact arr_deep items false close rest f (d + 1) [] hv.2.2 hv.2.1 (by omega) (by omega) (by omega)
+  | .dict pre kvs close =>
+    simp only [SObj.Valid] at hv
+    simp only [SObj.size] at hf
+    simp only [SObj.depth] at hdeep
+    simp only [SObj.render, List.append_assoc, List.cons_append, List.nil_append]
+    have hs := starts_dictStart pre (renderList kvs ++ (renderSep close ++ 62 :: 62 :: rest)) hv.1
+    by_cases hlim : maxNestingDepth ≤ d
+    · exact po_dict_deep f d _ hs.cur hlim
+    · rw [po_dict f d _ hs.cur (by omega), hs.next]
+      exact dict_deep kvs close rest f (d + 1) [] hv.2.2.1 hv.2.1 hv.2.2.2 (by simp) (by omega) (by omega)
+        (by omega)
+theorem arr_deep (items : List SObj) (need : Bool) (close : Sep) (rest : Str) (f d : Nat) (acc : List Obj)
+    (hv : ValidList need items) (hc : SepOk close) (hf : sizeList items + 1 ≤ f)
+    (hd : d ≤ maxNestingDepth) (hdeep : maxNestingDepth < d + sdepthList items) :
+    parseArray f d (stateAt (renderList items ++ (renderSep close ++ 93 :: rest))) acc = .error .err := by
+  obtain ⟨f, rfl⟩ : ∃ f', f = f' + 1 := ⟨f - 1, by omega⟩
+  have hE := starts_arrEnd close rest hc
+  match items with
+  | [] => simp only [sdepthList] at hdeep; omega
+  | x :: xs =>
+    simp only [ValidList] at hv
+    simp only [sizeList] at hf
+    simp only [sdepthList] at hdeep
+    simp only [renderList, List.append_assoc]
+    have hT : Terminated (renderSep close ++ 93 :: rest) := term_sep close hc _ (term_cons 93 _ (by decide))
+    have hT1 : FirstNotR (renderSep close ++ 93 :: rest) := firstNotR_of_starts hE (by simp)
+    have hT2 : NoRefAhead (renderSep close ++ 93 :: rest) :=
+      noRefAhead_of_starts hE (by intro v h; cases h)
+    have hterm : x.endsRegular = true → Terminated (renderList xs ++ (renderSep close ++ 93 :: rest)) := by
+      intro he
+      have hv2 := hv.2
+      rw [he] at hv2
+      exact term_list xs hv2 _ hT
+    obtain ⟨t, r, hs, ht, _⟩ := obj_first x need hv.1 _ hterm
+    have hnra := noRefAhead_list xs _ hv.2 _ hT hT1 hT2
+    by_cases hx : d + x.depth ≤ maxNestingDepth
+    · have hx' := obj_rt x need _ f d hv.1 (by omega) hx hterm hnra
+      rw [pa_item f d _ acc t _ _ hs.cur ht.2.1 ht.2.2.2 hx']
+      exact arr_deep xs x.endsRegular close rest f d (acc ++ [x.value]) hv.2 hc (by omega) hd (by omega)
+    · have hx' := obj_deep x need (renderList xs ++ (renderSep close ++ 93 :: rest)) f d hv.1 (by omega) hd (by omega)
+      exact pa_item_err f d _ acc t _ hs.cur ht.2.1 ht.2.2.2 hx'
+theorem dict_deep (kvs : List SObj) (close : Sep) (rest : Str) (f d : Nat) (acc : List (Str × Obj))
+    (hv : ValidKVs kvs) (hc : SepOk close)
+    (hnd : (keysOf kvs).Nodup) (hfr : ∀ k ∈ keysOf kvs, k ∉ acc.map Prod.fst)
+    (hf : sizeList kvs + 1 ≤ f) (hd : d ≤ maxNestingDepth)
+    (hdeep : maxNestingDepth < d + sdepthList kvs) :
+    parseDict f d (stateAt (renderList kvs ++ (renderSep close ++ 62 :: 62 :: rest))) acc = .error .err := by
+  obtain ⟨f, rfl⟩ : ∃ f', f = f' + 1 := ⟨f - 1, by omega⟩
+  have hE := starts_dictEnd close rest hc
+  match kvs with
+  | [] => simp only [sdepthList] at hdeep; omega
+  | [_] => simp [ValidKVs] at hv
+  | k :: v :: kvs' =>
+    simp only [ValidKVs] at hv
+    obtain ⟨hkn, hkv, hvv, hv'⟩ := hv
+    simp only [sizeList] at hf
+    simp only [keysOf, List.nodup_cons] at hnd
+    match k, hkn, hkv with
+    | .name pre ps, _, hkv =>
+      simp only [SObj.Valid] at hkv
+      simp only [sdepthList, SObj.depth] at hdeep
+      simp only [keysOf, SObj.keyBytes, List.mem_cons, forall_eq_or_imp] at hfr hnd
+      simp only [renderList, SObj.render, List.append_assoc, List.cons_append]
+      have hT : Terminated (renderSep close ++ 62 :: 62 :: rest) :=
+        term_sep close hc _ (term_cons 62 _ (by decide))
+      have hT1 : FirstNotR (renderSep close ++ 62 :: 62 :: rest) := firstNotR_of_starts hE (by simp)
+      have hT2 : NoRefAhead (renderSep close ++ 62 :: 62 :: rest) :=
+        noRefAhead_of_starts hE (by intro v h; cases h)
+      obtain ⟨hA, _, hC⟩ := kvs_head kvs' hv' _ hT hT1 hT2
+      have hY : Terminated (v.render ++ (renderList kvs' ++ (renderSep close ++ 62 :: 62 :: rest))) :=
+        term_obj v true hvv _ (Or.inl rfl)
+      have hs := starts_name pre ps _ hkv.1 hkv.2 hY
+      by_cases hx : d + v.depth ≤ maxNestingDepth
+      · have hx' := obj_rt v true _ f d hvv (by omega) hx (fun _ => hA) hC
+        rw [← hs.next] at hx'
+        rw [pd_item f d _ acc _ _ _ hs.cur hx', dictSet_fresh acc _ _ hfr.1]
+        refine dict_deep kvs' close rest f d _ hv' hc hnd.2 ?_ (by omega) hd (by omega)
+        intro k' hk'
+        simp only [List.map_append, List.map_cons, List.map_nil, List.mem_append, List.mem_singleton, not_or]
+        refine ⟨hfr.2 k' hk', ?_⟩
+        intro e; subst e; exact hnd.1 hk'
+      · have hx' := obj_deep v true (renderList kvs' ++ (renderSep close ++ 62 :: 62 :: rest)) f d hvv (by omega) hd
+          (by omega)
+        rw [← hs.next] at hx'
+        exact pd_item_err f d _ acc _ _ hs.cur hx'
 end
 
 /-! ### E. fuel -/
@@ -635,50 +781,76 @@ end
 
 end Prs
 
-/-- one object, any legal spelling, any depth: the parser returns the value meant and stands exactly
-on what follows -/
-theorem parse_roundtrip (so : SObj) (need : Bool) (rest : Str) (f : Nat)
-    (hv : so.Valid need) (hf : so.size ≤ f)
+/-- one object, any legal spelling, nested at most as deep as `p.depth` leaves room for: the parser
+returns the value meant and stands exactly on what follows -/
+theorem parse_roundtrip (so : SObj) (need : Bool) (rest : Str) (f d : Nat)
+    (hv : so.Valid need) (hf : so.size ≤ f) (hd : d + so.value.depth ≤ maxNestingDepth)
     (hterm : so.endsRegular = true → Terminated rest)
     (hnr : FirstNotR rest) (hnra : NoRefAhead rest) :
-    parseObject f (stateAt (so.render ++ rest)) = .ok (so.value, stateAt rest) := by
+    parseObject f d (stateAt (so.render ++ rest)) = .ok (so.value, stateAt rest) := by
   have _ := hnr
-  exact Prs.obj_rt so need rest f hv hf hterm hnra
+  rw [value_depth so need hv] at hd
+  exact Prs.obj_rt so need rest f d hv hf hd hterm hnra
 
-/-- `core.NewParser(r).ParseObject()` on any legal spelling of any object tree, optionally followed by
-white space / comments -/
-theorem core_roundtrip_spelled (so : SObj) (trail : Sep) (hv : so.Valid false) (ht : SepOk trail) :
+/-- … and one that needs more open containers than the limit allows is an error, whatever it is
+otherwise -/
+theorem parse_too_deep (so : SObj) (need : Bool) (rest : Str) (f d : Nat)
+    (hv : so.Valid need) (hf : so.size ≤ f) (hd : d ≤ maxNestingDepth)
+    (hdeep : maxNestingDepth < d + so.value.depth) :
+    parseObject f d (stateAt (so.render ++ rest)) = .error .err := by
+  rw [value_depth so need hv] at hdeep
+  exact Prs.obj_deep so need rest f d hv hf hd hdeep
+
+theorem fuelFor_enough (so : SObj) (trail : Sep) : so.size ≤ fuelFor (so.render ++ renderSep trail) := by
+  have hsz := Prs.size_le so
+  unfold fuelFor
+  rw [List.length_append]
+  omega
+
+/-- `core.NewParser(r).ParseObject()` on any legal spelling of any object tree nested at most
+`maxNestingDepth` deep, optionally followed by white space / comments -/
+theorem core_roundtrip_spelled (so : SObj) (trail : Sep) (hv : so.Valid false) (ht : SepOk trail)
+    (hd : so.value.depth ≤ maxNestingDepth) :
     coreParse (so.render ++ renderSep trail) = .ok (so.value, stateAt (renderSep trail)) := by
   have hE := Prs.starts_eof trail ht
   have hT : Terminated (renderSep trail) := by
     have := Prs.term_sep trail ht [] (Or.inl rfl)
     simpa using this
-  have hsz := Prs.size_le so
-  show parseObject (fuelFor (so.render ++ renderSep trail)) (stateAt (so.render ++ renderSep trail)) = _
-  refine parse_roundtrip so false (renderSep trail) _ hv ?_ (fun _ => hT)
+  show parseObject (fuelFor (so.render ++ renderSep trail)) 0 (stateAt (so.render ++ renderSep trail)) = _
+  exact parse_roundtrip so false (renderSep trail) _ 0 hv (fuelFor_enough so trail) (by omega) (fun _ => hT)
     (Prs.firstNotR_of_starts hE (by simp)) (Prs.noRefAhead_of_starts hE (by intro v h; cases h))
-  unfold fuelFor
-  rw [List.length_append]
-  omega
 
-/-- `a b R` is one reference; the parser then stands on what follows -/
-theorem ref_bytes (n g : Nat) (pre s1 s2 : Sep) (rest : Str)
+/-- `core.NewParser(r).ParseObject()` on any legal spelling of any object tree nested deeper than
+`maxNestingDepth`: an error (not end of input) -/
+theorem core_too_deep_spelled (so : SObj) (trail : Sep) (hv : so.Valid false) (ht : SepOk trail)
+    (hd : maxNestingDepth < so.value.depth) :
+    coreParse (so.render ++ renderSep trail) = .error .err := by
+  have _ := ht
+  show parseObject (fuelFor (so.render ++ renderSep trail)) 0 (stateAt (so.render ++ renderSep trail)) = _
+  exact parse_too_deep so false (renderSep trail) _ 0 hv (fuelFor_enough so trail) (Nat.zero_le _) (by omega)
+
+/-- `a b R` is one reference; the parser then stands on what follows (inside any number of open
+containers the limit allows) -/
+theorem ref_bytes (n g : Nat) (pre s1 s2 : Sep) (rest : Str) (d : Nat) (hd : d ≤ maxNestingDepth)
     (hv : (SObj.ref pre n g s1 s2).Valid false) (ht : Terminated rest) (hnr : FirstNotR rest) (hnra : NoRefAhead rest) :
-    parseObject 1 (stateAt ((SObj.ref pre n g s1 s2).render ++ rest)) = .ok (.ref n g, stateAt rest) :=
-  parse_roundtrip (SObj.ref pre n g s1 s2) false rest 1 hv (by simp [SObj.size]) (fun _ => ht) hnr hnra
+    parseObject 1 d (stateAt ((SObj.ref pre n g s1 s2).render ++ rest)) = .ok (.ref n g, stateAt rest) :=
+  parse_roundtrip (SObj.ref pre n g s1 s2) false rest 1 d hv (by simp [SObj.size])
+    (by simp only [SObj.value, Obj.depth]; omega) (fun _ => ht) hnr hnra
 
 /-- `a b` not followed by R is the integer `a`; the parser then stands on `b`: nothing consumed twice or lost -/
-theorem two_ints_bytes (a b : Int) (p1 p2 : Sep) (rest : Str)
+theorem two_ints_bytes (a b : Int) (p1 p2 : Sep) (rest : Str) (d : Nat) (hd : d ≤ maxNestingDepth)
     (h1 : (SObj.int p1 false 0 a).Valid false) (h2 : (SObj.int p2 false 0 b).Valid true)
     (ht : Terminated rest) (hnr : FirstNotR rest) (hnra : NoRefAhead rest) :
-    parseObject 1 (stateAt ((SObj.int p1 false 0 a).render ++ ((SObj.int p2 false 0 b).render ++ rest))) =
+    parseObject 1 d (stateAt ((SObj.int p1 false 0 a).render ++ ((SObj.int p2 false 0 b).render ++ rest))) =
         .ok (.int a, stateAt ((SObj.int p2 false 0 b).render ++ rest)) ∧
-      parseObject 1 (stateAt ((SObj.int p2 false 0 b).render ++ rest)) = .ok (.int b, stateAt rest) := by
+      parseObject 1 d (stateAt ((SObj.int p2 false 0 b).render ++ rest)) = .ok (.int b, stateAt rest) := by
   refine ⟨?_, ?_⟩
-  · exact parse_roundtrip (SObj.int p1 false 0 a) false _ 1 h1 (by simp [SObj.size])
+  · exact parse_roundtrip (SObj.int p1 false 0 a) false _ 1 d h1 (by simp [SObj.size])
+      (by simp only [SObj.value, Obj.depth]; omega)
       (fun _ => Prs.term_obj _ true h2 rest (Or.inl rfl))
       (Prs.firstNotR_obj _ true h2 rest (fun _ => ht))
       (Prs.noRefAhead_obj _ true h2 rest (fun _ => ht) hnr)
-  · exact parse_roundtrip (SObj.int p2 false 0 b) true rest 1 h2 (by simp [SObj.size]) (fun _ => ht) hnr hnra
+  · exact parse_roundtrip (SObj.int p2 false 0 b) true rest 1 d h2 (by simp [SObj.size])
+      (by simp only [SObj.value, Obj.depth]; omega) (fun _ => ht) hnr hnra
 
 end Tabula.Pdf
